@@ -60,6 +60,11 @@ func InstallClock() (restore func()) {
 	return distributed.VerifSetClock(func() int64 { return atomic.LoadInt64(&now) })
 }
 
+// Bases for the harness clocks: small logical values and a realistic UnixNano (about 1.7e18,
+// beyond the 2^53 a float64 holds exactly) — stamps a few nanoseconds apart up there are
+// distinct integers and must stay distinct in every comparison.
+var ClockBases = []int64{1_000_000, 1_000_000, 1_700_000_000_000_000_000, 1_700_000_000_000_000_123}
+
 // SetNow sets what the next local write will be stamped with.
 func SetNow(v int64) { atomic.StoreInt64(&now, v) }
 
